@@ -127,11 +127,9 @@ def kernel(tier):
             violations.append({"key": {"ahead": "kernel:runs-ahead", "shared": "kernel:shared-limit"}.get(kind, "kernel:unnecessary-delay"), "replay": path, "call": json.dumps(spec)[:300],
                                "what": f"limits={limits} reset_rate={R} {direction}: {what}; reproduced on the real classes in exact rational arithmetic (measured {float(w):.6g})"})
 
+        nval = 0
         try:
             nval = validate_translator()
-        except P.Unsupported as e:
-            return {"error": f"interpreter does not support the current source ({e}): Z3 kernel inconclusive", "evaluations": 0}
-        try:
             # (a)+(d) cumulative bound for single limits and stacks (tightest governs: the bound holds for every level at once)
             stacks = [[L] for L in grid] + [[1, 3], [3, 1000], [8192, 3]] + ([] if q else [[1, 3, 1000], [1000, 3, 1]])
             for limits in stacks:
@@ -182,7 +180,20 @@ def kernel(tier):
             for x in K.check_clone_independent(st) + K.check_limit_setter(st):
                 violations.append({"key": "kernel:" + x["kind"], "what": str(x), "call": "None"})
         except P.Unsupported as e:
-            return {"error": f"interpreter does not support the current source ({e}): Z3 kernel inconclusive", "evaluations": evaluations}
+            # the interpreter met a construct it does not model: the z3 kernel decides nothing.  Fallback (sampling, stated as such):
+            # concrete schedules on the real classes; a bound broken there is still a reproduced violation
+            violations.clear()
+            nonrepro.clear()
+            nf, bad = K.fallback_sweep(grid)
+            for kind, limits, R, direction, x in bad[:3]:
+                add_witness(kind, limits, R, direction, x, f"fallback sweep (interpreter does not support the current source: {e}): concrete schedule breaks the {kind} bound, limits {limits}")
+            seen, uniq = set(), []
+            for v in violations:
+                if v["key"] not in seen:
+                    seen.add(v["key"])
+                    uniq.append(v)
+            return {"violations": uniq, "evaluations": evaluations + nf, "inconclusive": 1, "sigs": ["fallback-sweep"],
+                    "summary": f"Z3 KERNEL INCONCLUSIVE: interpreter does not support the current source ({e}); fallback concrete sweep over {nf} schedules found {len(bad)} bound violations"}
         if nonrepro:
             return {"error": "; ".join(nonrepro[:3]), "evaluations": evaluations}
         # de-duplicate by key
